@@ -329,3 +329,43 @@ func VerifH_C01_Reach() {
 	vCover("end")
 	vAssert(err != nil || !has, "reach-twin")
 }
+
+// ---- C05.O1: storage faults are propagated by every CRDT merge ----
+
+// VerifH_C05_CRDTFaults — conf op: 0 LWW.Merge (live doc), 1 LWW.Merge on a deleted doc, 2 Counter.Merge,
+// 3 DocComposite delete merge (with two live value keys to move), 4 DocComposite active merge.
+// Any subset of <=2 failing operations among the first `window` store operations: if a fault was injected the
+// merge returns an error; without faults it returns nil.
+func VerifH_C05_CRDTFaults() {
+	s := &vKV{}
+	ctx := context.Background()
+	vAssert(vApplyActive(s) == nil, "setup")
+	vAssert(vApplyLWW(s, vLWWOp{data: []byte{1}, prio: 2}) == nil, "setup")
+	c0 := NewCounter(s, "sv", vDocKey2, "c", true, client.FieldKind_NILLABLE_INT)
+	vAssert(c0.Merge(ctx, &CounterDelta{Data: vCborInt(5), Priority: 2}) == nil, "setup")
+	op := vConfInt("op")
+	if op == 1 {
+		vAssert(vApplyDelete(s) == nil, "setup")
+	}
+	f := &vFaults{window: vConfInt("window"), max: 2}
+	s.faults = f
+	var err error
+	switch op {
+	case 0, 1:
+		d := vMkLWWOp("d", 1)
+		err = vApplyLWW(s, d)
+	case 2:
+		c := NewCounter(s, "sv", vDocKey2, "c", true, client.FieldKind_NILLABLE_INT)
+		err = c.Merge(ctx, &CounterDelta{Data: vCborInt(int64(vI16("inc"))), Priority: 3})
+	case 3:
+		err = vApplyDelete(s)
+	default:
+		err = vApplyActive(s)
+	}
+	s.faults = nil
+	vCover("ran")
+	vAssert(vImplies(f.injected > 0, err != nil), "fault-propagates")
+	vAssert(vImplies(f.injected == 0, err == nil), "no-fault-no-error")
+	vAssert(f.count <= f.window, "window-covers-all-store-operations")
+	vObserve("ops", f.count)
+}
